@@ -52,3 +52,129 @@ def x1_dispatch_vs_cancel(n=2):
     return sl, dict(init=init, safety=safety, stuck=stuck, witness=witness, assumptions=[
         f"initial state: {n} submitted work ids, each PENDING or already CANCELLED, FIFO id queue, 0..{n} free call-queue slots",
         "call queue = slot semaphore + feeder buffer (stdlib Queue.put/full); Future = concurrent.futures state machine"])
+
+
+def _consistent(S, n):
+    """Representation invariant of the work-id bookkeeping (a reachable-state over-approximation that
+    every step re-establishes, see C03 step contracts): running ids are pending, dispatched futures are
+    RUNNING, ids still queued are PENDING or CANCELLED, ids >= tail do not exist yet."""
+    cons = [z3.ULE(S["workids.head"], S["workids.tail"]), z3.ULE(S["workids.tail"], BV(n)),
+            S["futures.next"] == S["workids.tail"], S["ex._queue_count"] == S["workids.tail"]]
+    for i in range(n):
+        queued = z3.And(z3.ULE(S["workids.head"], BV(i)), z3.ULT(BV(i), S["workids.tail"]))
+        exists = z3.ULT(BV(i), S["workids.tail"])
+        inp, inr = bit(S["pending.m"], i, n), bit(S["running.m"], i, n)
+        st = S[f"futures.st.{i}"]
+        cons += [z3.Implies(inr, inp), z3.Implies(inp, exists), z3.Implies(queued, z3.And(inp, z3.Not(inr))),
+                 z3.Implies(queued, z3.Or(st == PENDING, st == CANCELLED)),
+                 z3.Implies(inr, st == RUNNING),
+                 z3.Implies(z3.And(inp, z3.Not(queued), z3.Not(inr)), z3.BoolVal(False)),
+                 z3.Implies(z3.Not(exists), z3.And(z3.Not(inp), z3.Not(inr))),
+                 S[f"futures.sets.{i}"] == 0]
+    return cons
+
+
+def x2_feeder_error_vs_dispatch(n=2):
+    """Manager thread dispatches (real add_call_item_to_queue) while the feeder thread's error path (real
+    _SafeQueue._on_queue_feeder_error) handles an item that could not be pickled."""
+    sl = ExecSlice(n_ids=n, n_workers=2, callq_cap=n + 1, wakeup_cap=2)
+    S = sl.S
+    S.declare("g.failed", W, 0)
+    S.declare("in.big", "bool", None)
+    sl.sys.local_types["in.big"] = "bool"
+    sl.comp.immutable.add("in.big")
+    sl.obs.define("the_error", lambda a, k, t, S_: [Outcome(T, {}, ("rec", "Err", {"big": S_["in.big"]}), None, "obs")],
+                  ("rec", "Err", {"big": "bool"}), fused=True)
+    cq = sl.objects["callq"]["model"]
+    base = cq.outcomes
+
+    def outcomes(method, args, kwargs, t, S_):
+        outs = base(method, args, kwargs, t, S_)
+        if method == "take_failed_item":
+            for j, o in enumerate(outs):
+                o.updates["g.failed"] = S_["g.failed"] | BV(1 << j)
+        return outs
+    cq.outcomes = outcomes
+    sl.thread("M", "manager_dispatch", [("o", "mt")])
+    sl.thread("F", "feeder_fail_one", [("o", "callq"), ("o", "obs")])
+    sl.finish()
+    full = (1 << n) - 1
+    init = z3.And(S["pending.m"] == full, S["running.m"] == 0, S["workids.head"] == 0, S["workids.tail"] == n,
+                  S["callq.free"] == n + 1, S["wakeup.pipe.n"] == 0, S["flags.shutdown"] == False, S["flags.broken?"] == False,
+                  *[S[f"futures.st.{i}"] == PENDING for i in range(n)])
+    failed, put = S["g.failed"], S["callq.put"]
+    per = []
+    for i in range(n):
+        f_i, p_i = bit(failed, i, n), bit(put, i, n)
+        st, res = S[f"futures.st.{i}"], S[f"futures.res.{i}"]
+        per.append(z3.Or(
+            # the failed task: gone from the bookkeeping, its own future failed once with PicklingError/RuntimeError
+            z3.And(f_i, z3.Or(bit(S["pending.m"], i, n), bit(S["running.m"], i, n), st != FINISHED,
+                              res != z3.If(S["in.big"], BV(R_RUNTIME), BV(R_PICKLING)),
+                              S[f"futures.sets.{i}"] != 1)),
+            # every other dispatched task is untouched
+            z3.And(z3.Not(f_i), p_i, z3.Or(st != RUNNING, z3.Not(bit(S["pending.m"], i, n)), z3.Not(bit(S["running.m"], i, n))))))
+    safety = {"C04 the feeder or manager thread died on an uncaught exception (pool left inconsistent)": S["fail"] != 0,
+              "C04 the pool was flagged broken/shut down by a task-level failure": z3.Or(S["flags.shutdown"], S["flags.broken?"])}
+    stuck = {"C04 after the error path: wrong outcome for the failed task or a sibling disturbed": z3.And(sl.all_ended(), z3.Or(*per)),
+             "C04 the call-queue slot of the failed item was not given back":
+                 z3.And(sl.all_ended(), S["callq.free"] + popcount(S["callq.buf"], n) != BV(n + 1)),
+             "C04 the manager was not woken after the failure": z3.And(sl.all_ended(), failed != 0, S["wakeup.pipe.n"] == 0),
+             "C01 a thread is blocked for ever": z3.Not(sl.all_ended())}
+    witness = z3.And(sl.all_ended(), failed != 0, put == full)
+    return sl, dict(init=init, safety=safety, stuck=stuck, witness=witness, assumptions=[
+        f"initial state: {n} submitted PENDING work ids, empty call queue; one queued item fails to pickle (PicklingError or struct.error)",
+        "Queue._feed itself (slot release before the callback) is checked in the C04 E-CH harness; here the callback races with dispatch"])
+
+
+def _obs_basic(sl):
+    S = sl.S
+    S.declare("g.submitted", "bool", False)
+    S.declare("g.rejected", "bool", False)
+    S.declare("g.waited", "bool", False)
+    S.declare("g.saw_shutdown", "bool", False)
+    setf = lambda name: (lambda a, k, t, S_: [Outcome(T, {name: T}, None, None, "obs")])
+    sl.obs.define("task", lambda a, k, t, S_: [Outcome(T, {}, None, None, "obs")], fused=True)
+    sl.obs.define("submitted", setf("g.submitted"), fused=True)
+    sl.obs.define("rejected", setf("g.rejected"), fused=True)
+    sl.obs.define("waited", setf("g.waited"), fused=True)
+    sl.obs.define("saw_shutdown", setf("g.saw_shutdown"), fused=True)
+
+
+def x3_worker_exit_vs_submit(with_user=True, collected=False, nowait_shutdown=False):
+    """The only worker of a max_workers=1 pool has announced its exit (idle time-out / memory-leak path). The
+    manager thread processes the announcement (real process_result_item) while a user thread submits a task
+    (real submit -> _ensure_executor_running -> _adjust_process_count)."""
+    n = 2
+    sl = ExecSlice(n_ids=n, n_workers=2, callq_cap=3, wakeup_cap=2)
+    S = sl.S
+    _obs_basic(sl)
+    sl.thread("M", "manager_pid_message", [("o", "mt"), ("rec", "Msg", {"k": ("c", 1), "a": ("c", 0), "e": ("c", False), "?": ("c", True)})])
+    if with_user:
+        sl.thread("U", "user_submit", [("o", "ex"), ("o", "obs")])
+    sl.thread("Wk", "leaving_worker", [("o", "ptable"), ("c", 0)])
+    sl.finish()
+    init = z3.And(*_consistent(S, n), S["workids.tail"] == S["workids.head"],  # nothing left undispatched: the worker was idle
+                  z3.ULE(S["workids.tail"], 1),
+                  S["processes.m"] == 1, S["ptable.alive"] == 1, S["ptable.started"] == 1, S["ptable.exitlock"] == 0,
+                  S["ptable.next"] == 1, S["ex._max_workers"] == 1, S["mgmt.sl.v"] == 1, S["shutdown_lock.v"] == 1,
+                  S["wakeup.pipe.n"] == 0, S["callq.free"] == 3, S["resq.pipe.n"] == 0,
+                  S["flags.broken?"] == False, S["weakref.dead"] == collected,
+                  S["flags.shutdown"] == nowait_shutdown,
+                  # shutdown(wait=False) drops the references (and only shutdown does)
+                  S["ex._processes_management_lock?"] == (not nowait_shutdown),
+                  S["ex._executor_manager_thread_wakeup?"] == (not nowait_shutdown),
+                  S["running.m"] == S["pending.m"])   # whatever is pending was dispatched (possibly still queued in the pipe)
+    lost = z3.And(sl.all_ended(), S["pending.m"] != 0, S["processes.m"] == 0)
+    safety = {"C07/C01 the manager thread died while handling a clean worker exit": S["fail"] != 0,
+              "C07 a clean time-out exit marked the pool broken": S["flags.broken?"],
+              "C08 more workers registered than max_workers": z3.UGT(popcount(S["processes.m"], 2), S["ex._max_workers"]),
+              "C08 a worker was spawned without the management lock": S["ptable.spawned_unlocked"]}
+    stuck = {"C07 submitted work is pending but no worker is left and nobody will start one (lost task)": lost,
+             "C01 a thread is blocked for ever": z3.Not(sl.all_ended())}
+    known = {"F1": z3.Not(S["ex._processes_management_lock?"]), "F2": S["weakref.dead"]}
+    witness = z3.And(sl.all_ended(), S["g.submitted"], S["processes.m"] != 0) if with_user else sl.all_ended()
+    return sl, dict(init=init, safety=safety, stuck=stuck, witness=witness, known=known, assumptions=[
+        "initial state: max_workers=1, its only worker idle and past its exit announcement, 0..1 tasks dispatched before",
+        "the leaving worker waits for its exit lock (30 s timeout = free transition) and then ends; process start/join are primitives",
+        "starting the manager thread (_start_executor_manager_thread) is outside: the thread exists in every slice"])
